@@ -36,7 +36,9 @@ Bases ==
                              [c |-> 3, l |-> 3, h |-> Fill(3, 3) \o <<Ev("decstbm", <<2, 3>>), EvM("sm", <<6>>, TRUE), Ev("decsc", <<>>), Ev("decsc", <<>>)>>],
                              \* saved with origin mode on (no region) in the far corner; saved beyond the old width under DECCOLM
                              [c |-> 4, l |-> 3, h |-> Fill(4, 3) \o <<EvM("sm", <<6>>, TRUE), Ev("cup", <<3, 4>>), Ev("decsc", <<>>)>>],
-                             [c |-> 3, l |-> 2, h |-> <<EvM("sm", <<3>>, TRUE), Ev("cup", <<2, 101>>), Ev("sgr", <<4>>), Ev("decsc", <<>>)>>] }
+                             [c |-> 4, l |-> 3, h |-> Fill(4, 3)] }
+    \* (a model of its own, so that the 132-column states do not multiply with the depth-4 exploration of C14seq)
+    [] Model = "C14colm" -> { [c |-> 3, l |-> 1, h |-> <<EvM("sm", <<3>>, TRUE), Ev("cup", <<1, 101>>), Ev("sgr", <<4>>), Ev("decsc", <<>>)>>] }
     [] Model = "C15seq" -> { [c |-> 3, l |-> 2, h |-> Fill(3, 2)] }
     [] Model = "C06seq" -> { [c |-> 2, l |-> 4, h |-> Fill(2, 4)], [c |-> 2, l |-> 4, h |-> <<EvS("draw", <<113>>), Ev("cup", <<3, 1>>), EvS("draw", <<122>>)>>] }
 
@@ -52,7 +54,10 @@ Alphabet ==
     [] Model = "C14seq" ->
          { Ev("decsc", <<>>), Ev("decrc", <<>>), Ev("cup", <<2, 2>>), Ev("cup", <<3, 3>>), Ev("sgr", <<1, 31>>), Ev("sgr", <<0>>), Ev("so", <<>>), Ev("si", <<>>),
            EvM("sm", <<6>>, TRUE), EvM("rm", <<6>>, TRUE), EvM("rm", <<7>>, TRUE), EvM("rm", <<25>>, TRUE), Ev("decstbm", <<1, 2>>), Ev("decstbm", <<>>),
-           Ev("resize", <<2, 2>>), Ev("resize", <<3, 3>>), Ev("resize", <<4, 4>>), EvS("draw", <<120>>),
+           Ev("resize", <<2, 2>>), Ev("resize", <<3, 3>>), Ev("resize", <<4, 4>>), EvS("draw", <<120>>) }
+    [] Model = "C14colm" ->
+         { Ev("decsc", <<>>), Ev("decrc", <<>>), Ev("cup", <<1, 2>>), Ev("cup", <<1, 120>>), Ev("sgr", <<1, 31>>), Ev("so", <<>>),
+           EvM("sm", <<6>>, TRUE), EvM("rm", <<7>>, TRUE), Ev("decstbm", <<>>), Ev("resize", <<1, 2>>), Ev("resize", <<1, 140>>), EvS("draw", <<120>>),
            EvM("sm", <<3>>, TRUE), EvM("rm", <<3>>, TRUE) }
     [] Model = "C15seq" ->
          { Ev("ris", <<>>), Ev("cup", <<1, 3>>), Ev("ich", <<1>>), Ev("ri", <<>>), Ev("el", <<1>>), Ev("resize", <<1, 2>>), Ev("resize", <<3, 4>>),
